@@ -429,7 +429,8 @@ ReadAt(b, off, req) ==
         LET c == RdLE(b, off + 8)
         IN  IF c \notin Codes THEN Fail("invalid_type", c, off + 8)
             ELSE IF req # -1 /\ c # req THEN Fail("mismatch", c, off + 8)
-            ELSE IF w < 0 \/ w > 500000000 THEN Fail("nonconformant", 0, off + 4)
+            \* the content holds at least the type code (2 words); a null record holds nothing else
+            ELSE IF w < 2 \/ w > 500000000 \/ (c = 0 /\ w # 2) THEN Fail("nonconformant", 0, off + 4)
             ELSE LET d == DecodeBody(b, off + 12, 2 * w - 4, c, TRUE)
                  IN  IF d.ok THEN [d EXCEPT !.at = off + 8 + 2 * w] ELSE d
 
